@@ -211,6 +211,7 @@ def run(chk, ctx):
             it, outs = codec.run(prog, fi, args)
         loops.extend(it.loops)
         rec_calls.extend(it.rec_calls)
+        it.last_outs = {fi.qualname: outs}
         runs.append(it)
         for k_, n_ in it.static_loops.items():
             static_loops[k_] = max(static_loops.get(k_, 0), n_)
@@ -271,6 +272,7 @@ def run(chk, ctx):
         cyc.add(fi.short)
     ndesc = 0
     dseen = set()
+    dseen2 = set()
     for it_ in runs:
         groups = {}
         for short, chain, seq, _d in it_.calls:
@@ -301,6 +303,48 @@ def run(chk, ctx):
                                T.show(a1.args[1])[:60] if isinstance(
                                    a1, Sym) and a1.op == 'slice' else '0'),
                            site='pamqp/decode.py')
+    # a decoder that walks the buffer reports at least as far as it walked:
+    # otherwise its caller resumes inside the region already decoded and
+    # decodes it again (with nesting, the work doubles per level)
+    for it_ in runs:
+        for lp in it_.loops:
+            fi_ = lp['func']
+            if fi_ is None or not fi_.module.name.endswith('.decode') or \
+                    not isinstance(lp['node'], ast.While):
+                continue
+            test = lp['test']
+            if not (isinstance(test, Sym) and test.op == 'lt'):
+                continue
+            cur = test.args[0]
+            key_ = ('covers', fi_.qualname, lp['node'].lineno)
+            if key_ in dseen2:
+                continue
+            # the returns of the function that follow this loop
+            for o in (x for x in getattr(it_, 'last_outs', {}).get(
+                    fi_.qualname, [])
+                      if x.kind == 'return'):
+                v = o.value
+                if not (isinstance(v, tuple) and len(v) == 2):
+                    continue
+                rep = v[0]
+                if not T.mentions(tuple(a for a in o.state.kn.atoms
+                                        if isinstance(a, Sym)),
+                                  lambda t: t is cur):
+                    continue
+                dseen2.add(key_)
+                d_ = T.sub(rep, cur)
+                lo_ = o.state.kn.lin_interval(d_)[0] if not isinstance(
+                    d_, int) else d_
+                okk = lo_ is not None and lo_ >= 0
+                chk.ob('C08.R', '%s reported count' % fi_.short, okk,
+                       'reports %s consumed, the loop cursor ended at %s: '
+                       '%s' % (T.show(rep)[:50], T.show(cur)[:50],
+                               'the count covers everything that was read'
+                               if okk else 'the last element may have been '
+                               'read past the reported count, so the caller '
+                               'decodes those bytes again'),
+                       site='%s:%d' % (fi_.module.relpath,
+                                       lp['node'].lineno))
     chk.ob('C08.R', 'single descent', not dseen,
            '%d entries into the recursive decoders %s examined; no two on '
            'one path start at the same buffer position' %
